@@ -137,6 +137,32 @@ class CompSeq(SymSeq):
             raise AttributeError('items')
         return self
 
+    def keys(self):
+        if self.kind != 'dict':
+            raise AttributeError('keys')
+        return CompPart(self, 'keys')
+
+    def values(self):
+        if self.kind != 'dict':
+            raise AttributeError('values')
+        return CompPart(self, 'values')
+
+    def kvc_isinstance(self, interp, cls):
+        classes = cls if isinstance(cls, tuple) else (cls,)
+        want = {'dict': ('dict', 'Mapping'), 'list': ('list',), 'gen': (), 'set': ('set',)}[self.kind]
+        return any(getattr(c, '__name__', '') in want for c in classes)
+
+
+class CompPart(CompSeq):
+    """keys() / values() of a dict comprehension of unknown length (aligned halves of one selection)."""
+
+    def __init__(self, base, part):
+        self.base, self.part = base, part
+        self.interp, self.src, self.kind = base.interp, base.src, 'list'
+        sel = 0 if part == 'keys' else 1
+        self.at = lambda i: (lambda c_el: (c_el[0], c_el[1][sel]))(base.at(i))
+        self.length = None
+
 
 class AssocDict:
     """dict with a concrete number of entries whose keys may be symbolic (insertion-ordered list of pairs).
